@@ -220,6 +220,8 @@ fn cfg_strategy_inner(p: Profile, thorough: bool) -> BoxedStrategy<Cfg> {
                 c.policy = 0;
                 c.big = b1;
                 c.events = b2;
+                c.children = b3;
+                c.sync = b3;
                 c.track = b3 && b1;
                 c.clients = c.clients.min(2);
                 c.vis = 0;
@@ -334,8 +336,8 @@ pub fn step_strategy(cfg: &Cfg, p: Profile) -> BoxedStrategy<Step> {
     v.push((w(cfg.faults, if sessions { 3 } else { 1 }), (0..clients).prop_map(|client| Step::DisconnectLate { client }).boxed()));
     v.push((w(sessions, 4), (0..clients).prop_map(|client| Step::Connect { client }).boxed()));
     v.push((
-        w(cfg.faults, if sessions { 4 } else { 2 }),
-        (0..clients, 0..slots, 0u8..16, proptest::bool::weighted(0.3)).prop_map(|(client, slot, what, restart)| Step::FaultEpisode { client, slot, what, restart }).boxed(),
+        w(cfg.faults, 4),
+        (0..clients, 0..slots, 0u8..16, proptest::bool::weighted(0.4)).prop_map(|(client, slot, what, restart)| Step::FaultEpisode { client, slot, what, restart }).boxed(),
     ));
     v.push((w(cfg.faults, 2), prop_oneof![2 => Just(Step::ServerRestart), 2 => Just(Step::ServerStop), 3 => Just(Step::ServerStart)].boxed()));
     v.push((w(cfg.auth == 1, 3), (0..clients).prop_map(|client| Step::Authorize { client }).boxed()));
